@@ -722,6 +722,18 @@ theorem forEachCollect_presS {α} {f : α → M Unit} (hf : ∀ x, PresS (f x) T
     apply PresS.bind (forEachCollect_presS hf xs); intro rest _
     exact PresS.pure trivial
 
+theorem ensureRoot_presS (hC : SmallCfg cfg) (p : Path) (i : Info) : PresS (ensureRoot cfg p i) T := by
+  unfold ensureRoot
+  apply PresS.bind (PresS.attempt (lexists_presS hC .base p)); intro r _
+  cases r with
+  | error e => exact PresS.pure trivial
+  | ok o =>
+    cases o with
+    | some x => exact PresS.pure trivial
+    | none =>
+      apply PresS.bind (PresS.attempt (primUnit_presS hC .base (c := .mkdirAll p _) trivial)); intro r2 _
+      cases r2 <;> exact PresS.pure trivial
+
 theorem classify_presS (hC : SmallCfg cfg) : ∀ (l : List (Path × Option Info)) (pl : RollbackPlan),
     PresS (classify cfg l pl) T
   | [], _ => PresS.pure trivial
@@ -736,7 +748,9 @@ theorem classify_presS (hC : SmallCfg cfg) : ∀ (l : List (Path × Option Info)
       | none => exact classify_presS hC rest _
   | (p, some i) :: rest, pl => by
     unfold classify
-    apply PresS.ite (classify_presS hC rest _)
+    apply PresS.ite
+    · apply PresS.bind (ensureRoot_presS hC p i); intro f _
+      exact classify_presS hC rest _
     cases i.kind <;> exact classify_presS hC rest _
 
 theorem infoFor_small {infos : List (Path × Option Info)} (h : AllN NS infos) {p : Path} {i : Info}
